@@ -171,9 +171,14 @@ def _veq_norm(na, nb):
         return f'{vb!r} of dtype {vb.dtype} (expected {va!r} of dtype {va.dtype})'
     with warnings.catch_warnings():
         warnings.simplefilter('ignore')
-        same = (va == vb)
-        if ca == 'n':
-            same = same | ((va != va) & (vb != vb))
+        if ca == 'n' and va.dtype != vb.dtype and 'c' not in (va.dtype.kind, vb.dtype.kind) and va.size:
+            # numbers held in different dtypes: numpy would compare them as float64 (2**62 + 1 == 2.0**62); Python numbers
+            # compare exactly
+            same = np.array([x == y or (x != x and y != y) for x, y in zip(va.ravel().tolist(), vb.ravel().tolist())]).reshape(va.shape)
+        else:
+            same = (va == vb)
+            if ca == 'n':
+                same = same | ((va != va) & (vb != vb))
     if not np.all(same):
         return f'{vb!r} (expected {va!r})'
     return None
